@@ -561,7 +561,32 @@ def rule_tab_special(P):
             ok = not extra
             r.add(f2, n, ok, "" if ok else f"`{first_line(n)}` is skipped under {[repr(x) for x in extra]}: composed rules such as the unit "
                   f"self-loop (I,X,K) → (I,X,K) carry weight (1/(1-w) in non-idempotent semirings) and must all be emitted")
-    r.min_instances = 7
+    # pass 2 expands rule bodies from every state that begins an item of the pass-1 chart (or from every machine state)
+    c_name = None
+    for n in walk_live(f2.node):
+        if isinstance(n, ast.Assign) and isinstance(n.value, ast.Call) and W.call_name(n.value) == f1.name and isinstance(n.targets[0], ast.Name):
+            c_name = n.targets[0].id
+    for lp in [n for n in walk_live(f2.node) if isinstance(n, ast.For) and isinstance(n.target, ast.Name)
+               and any(isinstance(x, ast.For) and "join" in norm(x.iter) and n.target.id in {y.id for y in ast.walk(x.iter) if isinstance(y, ast.Name)} for x in n.body)]:
+        it = lp.iter
+        if isinstance(it, ast.Name):
+            d = W.single_def(f2.node, it.id)
+            it = d if d is not None else it
+        txt = norm(it)
+        m_ = f2.params[1]
+        if isinstance(it, (ast.SetComp, ast.ListComp, ast.GeneratorExp)) and len(it.generators) == 1 and not it.generators[0].ifs \
+                and c_name is not None and norm(it.generators[0].iter) == c_name and isinstance(it.generators[0].target, ast.Tuple) \
+                and norm(it.elt) == norm(it.generators[0].target.elts[0]):
+            r.add(f2, lp, True, slots=dict(left_endpoints=txt), construct=f"{f2.name}: left end-points of expanded bodies")
+        elif txt in (f"{m_}.states", f"set({m_}.states)", f"list({m_}.states)", f"sorted({m_}.states)"):
+            r.add(f2, lp, True, slots=dict(left_endpoints=txt), construct=f"{f2.name}: left end-points of expanded bodies")
+        elif "arcs" in txt or ".start" in txt or ".I" in txt.replace(f"{m_}.I", ".I") and "states" not in txt:
+            r.add(f2, lp, False, f"bodies are expanded only from `{txt}`: a state without outgoing arcs (the last state of a string acceptor) never "
+                  f"begins an expansion, so a non-empty body that derives only the empty string (T → U V over nullable U, V) is lost there",
+                  construct=f"{f2.name}: left end-points of expanded bodies")
+        else:
+            r.undecided(f2, lp, f"left end-points `{txt}` not recognised", construct=f"{f2.name}: left end-points of expanded bodies")
+    r.min_instances = 8
     return r
 
 
